@@ -170,6 +170,11 @@ func (e *Env) c04case(tag string, tmpl string, modelled bool, extra map[string]i
 	if o.Class == "PANIC" {
 		e.Violate("eval-panic@"+siteOf(o.Msg), fmt.Sprintf("Render panicked on %q: %s", tmpl, o.Msg), map[string]interface{}{"tmpl": tmpl, "observed": o})
 	}
+	// a panic raised INSIDE a called function is reported by the call site as the call's error: for a
+	// built-in helper that is still a helper that panicked (the text of a Go run-time panic gives it away)
+	if strings.HasPrefix(tag, "builtin") && o.Class == "ERR" && (strings.Contains(o.Msg, "runtime error:") || strings.Contains(o.Msg, "reflect: ") || strings.Contains(o.Msg, "reflect.Value.")) {
+		e.Violate("eval-panic@recovered-in-builtin", fmt.Sprintf("a built-in helper panicked on %q (recovered at the call site): %s", tmpl, firstLine(o.Msg)), map[string]interface{}{"tmpl": tmpl, "observed": o})
+	}
 }
 
 func init() {
